@@ -129,7 +129,7 @@ type world12 = {
   hint : int; dbs : (int * string * bool) list; (* oid, name, template *) rels : (int * rel list) list }
 
 let db_sets = [| [ "app"; "App"; "APP" ]; [ "postgres"; "shop_db" ]; [ "mytemplate"; "Template1" ]; [ "x" ]; [ "App"; "postgres" ]; [ "postgres" ] |]
-let build_world r ?(ndb = 2) ?(size = 1) ?dbset ?users () : world12 =
+let build_world r ?(ndb = 2) ?(size = 1) ?(min_roles = 0) ?dbset ?users () : world12 =
   let (ver, hint) = pick r versions in
   let v16 = if hint >= 16 then true else if hint >= 12 then false else rbool r in
   let p = { v16; dead = rint r 2; size } in
@@ -149,8 +149,8 @@ let build_world r ?(ndb = 2) ?(size = 1) ?dbset ?users () : world12 =
   let ctl = match rint r 6 with 0 -> None | 1 -> Some (rbytes r 120) | 2 -> Some (rbytes r 295) | 3 -> Some (rbytes r 296) | _ -> Some (rbytes r (rrange r 300 520)) in
   (* pg_authid *)
   let roles =
-    if chance r 1 6 then None else
-      Some (List.init (rint r 4) (fun i ->
+    if min_roles = 0 && chance r 1 6 then None else
+      Some (List.init (max min_roles (rint r 4)) (fun i ->
           let name = List.nth [ "postgres"; "app_user"; "Admin"; "ro" ] i in
           let pw = match rint r 4 with 0 -> None | 1 -> Some (bs ("md5" ^ String.init 32 (fun _ -> "0123456789abcdef".[rint r 16])))
                                    | 2 -> Some (bs "SCRAM-SHA-256$4096:c2FsdA==$c3RvcmVk:c2VydmVy") | _ -> Some (ascii r (1 + rint r 12)) in
@@ -373,7 +373,10 @@ let cli_other_flags r (w : world12) : (string * flags) list =
     ("cli-relmap-oid", { d with f_relmap = bs (string_of_int oid) });
     ("cli-relmap-invalid", { d with f_relmap = bs (pick r [| "Global"; "12x"; "4294967296"; "-1"; "ALL" |]) });
     ("cli-passwords-all", { d with f_passwords = bs "all"; f_csv = true });
-    ("cli-passwords-user", { d with f_passwords = bs (pick r [| "postgres"; "app_user"; "Admin"; "admin"; "nobody"; "ALL" |]); f_db = bs n });
+    ("cli-passwords-user", { d with f_passwords = bs (pick r [| "postgres"; "app_user"; "Admin"; "admin" |]); f_db = bs n });
+    ("cli-passwords-upper-ALL", { d with f_passwords = bs "ALL" });
+    ("cli-passwords-absent-role", { d with f_passwords = bs "nobody"; f_list = true });
+    ("cli-sequences-upper-ALL", { d with f_sequences = bs "ALL" });
     ("cli-f-plain", { fl with f_d = (if rbool r then dir_name else []) });
     ("cli-f-1262", { no_flags with f_f = bs "global/1262"; f_list_db = true });
     ("cli-f-R", { fl with f_R = bs (pick r [| "0"; "0:0"; "0:1"; ":1" |]) });
@@ -384,8 +387,8 @@ let cli_other_flags r (w : world12) : (string * flags) list =
     ("cli-version", { d with f_version = true; f_list_db = true; f_f = file }) ]
 
 (* ---------------------------------------------------------------- the stream *)
-(* one block of 10 consecutive case indexes = the ten strata, each on its own cluster; CLI strata take a few flag records
-   per cluster, rotating through the lists *)
+(* one block of 10 consecutive case indexes = the ten strata, each on its own cluster; CLI strata take 3 / 6 flag records
+   per cluster, rotating through the lists (4 blocks visit every record) *)
 let gen seed n =
   for k = 0 to n - 1 do
     let r = rng_for seed k in
@@ -409,9 +412,9 @@ let gen seed n =
       let len = List.length l in
       List.iter (fun i -> let (tag, f) = List.nth l ((3 * blk + i) mod len) in emit_cli ~tag r w f) [ 0; 1; 2 ]
     | _ ->
-      let w = build_world r ~ndb:1 ~size:0 () in
+      let w = build_world r ~ndb:1 ~size:0 ~min_roles:2 () in
       let l = cli_other_flags r w in
       let len = List.length l in
-      List.iter (fun i -> let (tag, f) = List.nth l ((5 * blk + i) mod len) in emit_cli ~tag r w f) [ 0; 1; 2; 3; 4 ]
+      List.iter (fun i -> let (tag, f) = List.nth l ((6 * blk + i) mod len) in emit_cli ~tag r w f) [ 0; 1; 2; 3; 4; 5 ]
   done
 let () = main gen
